@@ -5,7 +5,7 @@
    caret comparator for the crate and for deps.dev alike.  Statements only; proofs in
    Semver/C03_cargo_proofs.v.  Partial versions, wildcards, prerelease tags (class F-C03-8) and
    the comma list are decided by the oracle. *)
-From DepsDev Require Import Lib.Base Semver.Version Semver.Span Semver.Interval Semver.C03_proofs Semver.C03_cargo_proofs
+From DepsDev Require Import Lib.Base Semver.Version Semver.Span Semver.Interval Semver.C03_proofs Semver.C03_cargo_proofs Semver.C03_cargo_more_proofs
      Gen.SemverTables Spec.CargoReq.
 Local Open Scope Z_scope.
 
@@ -34,3 +34,14 @@ Theorem C03_cargo_eq_sound : forall pv str M m p, fin M -> fin m -> fin p ->
   cargo_sound M m p (op_version_to_span pv go_tokEqual (mk3c str M m p)) CExact.
 Proof. exact cargo_eq_sound. Qed.
 Print Assumptions C03_cargo_eq_sound.
+
+Theorem C03_cargo_le_sound : forall pv str M m p, fin M -> fin m -> fin p ->
+  cargo_sound M m p (op_version_to_span pv go_tokLessEqual (mk3c str M m p)) CLessEq.
+Proof. exact cargo_le_sound. Qed.
+Print Assumptions C03_cargo_le_sound.
+
+(* p + 1 must stay below the value that stands for infinity *)
+Theorem C03_cargo_gt_sound : forall pv str M m p, fin M -> fin m -> fin p -> p < infinity - 1 ->
+  cargo_sound M m p (op_version_to_span pv go_tokGreater (mk3c str M m p)) CGreater.
+Proof. exact cargo_gt_sound. Qed.
+Print Assumptions C03_cargo_gt_sound.
